@@ -3,6 +3,7 @@
 References (TLA+, enumerated by TLC, every printed point executed on the implementation):
   spec/EmuBits.tla   bit conventions, register order, detection errors, distributions (exact rationals)
   spec/EmuTimes.tla  which states a V2 run must hold for (T, sampling rate, default / own evaluation times, shape)
+  spec/EmuReconf.tla histories of noise configurations (one parameter changed at a time): set_config = fresh emulator
   spec/EmuQubit.tla  exact dynamics of isolated atoms at Clifford points (Rabi quarter periods, zero drive,
                      detuned idle periods) in the three bases
 Only monitored (no reference, inequalities on observations of the runs): norm of state vectors, trace /
@@ -634,6 +635,158 @@ def emu_leak_worker(rec):
     return R.out()
 
 
+# ------------------------------------------------------------------------ initial state given in every accepted way
+@_guard
+def emu_init_worker(rec):
+    """The initial state of an EmuBits point (product or superposed, 2-level bases) handed over as numpy array,
+    qutip.Qobj and QutipState, normalised or scaled by a factor: the emulated state has norm 1 at every evaluation
+    time and all ways give the same states as the normalised Qobj, under a zero drive or a resonant pulse."""
+    R = Rep()
+    eb, mb, a, b, w = rec["e"], rec["m"], rec["a"], rec["b"], rec["w"]
+    n = len(a)
+    c = _crc(rec)
+    _seed_for(rec, 8)
+    ka, kb = product_ket(a, eb), product_ket(b, eb)
+    ket = ka if w == 4 else math.sqrt(w / 4) * ka + 1j * math.sqrt(1 - w / 4) * kb
+    scale = (1.0, 2.0, 0.5, 3.0)[c % 4]
+    drive = ("zero", "resonant")[(c >> 2) % 2]
+    T = 40 + (c >> 3) % 23
+    while overshoots(T):
+        T += 1
+    seq = Sequence(register(n), MockDevice)
+    seq.declare_channel("ch", "mw_global" if mb == "XY" else "rydberg_global")
+    if drive == "zero":
+        seq.delay(T, "ch")
+    else:
+        seq.add(Pulse.ConstantPulse(T, 0.5 * math.pi / (T * 1e-3), 0.0, 0.0), "ch")
+    sig0 = {"eb": eb, "mb": mb, "n": n, "level": "emulator", "drive": drive,
+            "scaled": "no" if scale == 1.0 else "yes"}
+    det0 = {"point": rec, "T": T, "scale": scale}
+    ev = [T * q / 3000 for q in range(4)]
+
+    def legacy(state):
+        em = QutipEmulator.from_sequence(seq, evaluation_times=ev)
+        em.set_initial_state(state)
+        return em.run().states
+
+    ref = legacy(ket)                                          # normalised Qobj
+    ways = {"Qobj": lambda: legacy(scale * ket),
+            "array": lambda: legacy(scale * ket.full()),
+            "EmulatorConfig(array)": lambda: QutipBackend(
+                seq, EmulatorConfig(evaluation_times=ev, initial_state=scale * ket.full().ravel())).run().states}
+    for st in ref:
+        check_physical(R, st, {**sig0, "api": "QutipEmulator.run", "given_as": "normalised Qobj"}, det0, noisy=False)
+    if drive == "zero":
+        R.tests += 1
+        worst = max(state_dev(st, ket) for st in ref)
+        if worst > 1e-6:
+            R.bad({**sig0, "clause": "zero_drive_unchanged", "api": "QutipEmulator.run"}, {**det0, "deviation": worst})
+    for wname, call in ways.items():
+        states = call()
+        sigw = {**sig0, "given_as": wname}
+        for st in states:
+            check_physical(R, st, {**sigw, "api": "QutipEmulator.run"}, det0, noisy=False)
+        R.tests += 1
+        worst = max(state_dev(x, y) for x, y in zip(states, ref)) if len(states) == len(ref) else 9.0
+        if worst > 1e-7:
+            R.bad({**sigw, "clause": "initial_state_same_results", "api": "QutipEmulator.run"}, {**det0, "deviation": worst})
+    # V2: QutipState built from the scaled Qobj or from scaled amplitudes
+    amps = {a: scale * (1.0 if w == 4 else math.sqrt(w / 4))}
+    if w != 4:
+        amps[b] = scale * 1j * math.sqrt(1 - w / 4)
+    v2ways = {"QutipState(Qobj)": QutipState(scale * ket, eigenstates=tuple(eb)),
+              "QutipState.from_state_amplitudes": QutipState.from_state_amplitudes(eigenstates=tuple(eb), amplitudes=amps)}
+    for wname, qs in v2ways.items():
+        sigw = {**sig0, "given_as": wname}
+        R.tests += 2
+        try:
+            r = QutipBackendV2(seq, config=QutipConfig(observables=[StateResult(evaluation_times=[0.0, 1 / 3, 1.0])],
+                                                       initial_state=qs)).run()
+        except Exception as e:  # noqa: BLE001
+            R.bad({**sigw, "clause": "v2_runs", "exc": type(e).__name__,
+                   "why": classify_v2_exception(e, True, False, T, len(eb), False)}, {**det0, "error": str(e)[:300]})
+            continue
+        for sv in r.get_tagged_results().get("state", []):
+            check_physical(R, sv.to_qobj(), {**sigw, "api": "QutipBackendV2.run"}, det0, noisy=False)
+        v = v2_last(R, r, "state", sigw, det0)
+        if v is not None:
+            d = state_dev(v.to_qobj(), ref[-1])
+            R.watch("max_v2_legacy_dev", d)
+            if d > STATE_TOL:
+                R.bad({**sigw, "clause": "initial_state_same_results", "api": "QutipBackendV2.run"}, {**det0, "deviation": d})
+    return R.out()
+
+
+# ------------------------------------------------------------------------------------------- EmuReconf histories
+RATE = {1: 0.5, 2: 1.5}
+
+
+def noise_model_of(cfg, basis):
+    kw = {}
+    for p_ in ("dephasing_rate", "hyperfine_dephasing_rate", "relaxation_rate", "depolarizing_rate"):
+        if cfg[p_]:
+            kw[p_] = RATE[cfg[p_]]
+    if cfg["eff_noise_rate"]:
+        dim = 3 if basis == "all" else 2
+        op = np.zeros((dim, dim))
+        op[1, 0] = 1.0
+        op[dim - 1, dim - 1] = 0.5
+        kw["eff_noise_rates"] = (RATE[cfg["eff_noise_rate"]],)
+        kw["eff_noise_opers"] = (op,)
+    if cfg["temperature"]:
+        kw.update(temperature=40.0 * cfg["temperature"], runs=1, samples_per_run=1)
+    return NoiseModel(**kw)
+
+
+def reconf_sequence(basis):
+    n = 2 if basis == "gr" else 1
+    seq = Sequence(register(n), MockDevice)
+    if basis in ("gr", "all"):
+        seq.declare_channel("ry", "rydberg_global")
+        seq.add(Pulse.ConstantPulse(200, 6.0, 1.0, 0.0), "ry")
+    if basis in ("dig", "all"):
+        seq.declare_channel("ra", "raman_local", initial_target=IDS[0])
+        seq.add(Pulse.ConstantPulse(200, 5.0, 0.0, 0.0), "ra", protocol="no-delay")
+    return seq
+
+
+@_guard
+def reconf_worker(rec):
+    """One QutipEmulator built with hist[0] and re-configured with hist[1:], against a fresh emulator built with
+    the configuration in force (the last one)."""
+    R = Rep()
+    basis, hist = rec["b"], rec["h"]
+    _seed_for(rec, 9)
+    seq = reconf_sequence(basis)
+    T = seq.get_duration()
+    ev = [T / 2000, T / 1000]
+    changed = [[p_ for p_ in hist[i] if hist[i][p_] != hist[i + 1][p_]][0] for i in range(len(hist) - 1)]
+    sig0 = {"basis": basis, "changed": changed[-1], "steps": len(hist) - 1,
+            "old_on": "+".join(sorted(p_ for p_ in hist[-2] if hist[-2][p_])) or "none"}
+    det0 = {"point": rec}
+    em = QutipEmulator.from_sequence(seq, evaluation_times=ev, config=SimConfig.from_noise_model(noise_model_of(hist[0], basis)))
+    if _crc(rec) % 2:
+        em.run()                                   # the old configuration has been used before it is replaced
+    for cfg in hist[1:]:
+        em.set_config(SimConfig.from_noise_model(noise_model_of(cfg, basis)))
+    got = em.run().states
+    fresh = QutipEmulator.from_sequence(seq, evaluation_times=ev,
+                                        config=SimConfig.from_noise_model(noise_model_of(hist[-1], basis))).run().states
+    R.tests += 2
+    if len(got) != len(fresh) or any(x.type != y.type for x, y in zip(got, fresh)):
+        R.bad({**sig0, "clause": "reconfigured_equals_fresh", "what": "kind_of_states"},
+              {**det0, "got": [x.type for x in got], "fresh": [y.type for y in fresh]})
+        return R.out()
+    worst = max(state_dev(x, y) for x, y in zip(got, fresh))
+    R.watch("max_reconfigured_vs_fresh_dev", worst)
+    if worst > 1e-7:
+        R.bad({**sig0, "clause": "reconfigured_equals_fresh"}, {**det0, "deviation": worst})
+    noisy = any(hist[-1].values())
+    for st in got:
+        check_physical(R, st, {**sig0, "api": "QutipEmulator.set_config/run"}, det0, noisy=noisy and st.isoper)
+    return R.out()
+
+
 # ------------------------------------------------------------------------------------------- EmuTimes points
 CHAN = {0: ("ground-rydberg", "rydberg_global"), 1: ("digital", "raman_global"), 2: ("XY", "mw_global")}
 
@@ -992,6 +1145,7 @@ CONFIGS = ('{<<<<"r","g">>,"ground-rydberg">>, <<<<"g","h">>,"digital">>, <<<<"u
 CONFIGS_UPTO3 = CONFIGS[:CONFIGS.index(', <<<<"r","g","h","x">>')] + "}"
 BITS_LAWS = ["Emit", "SumsToOne", "NoErrorIsBits", "OnesAreOneLetter", "IndexRange", "IndexInjective",
              "TwoLevelOrder", "MarginalIsRate", "MarginalOfMixture", "LeakageReadsZero", "CertainFlip"]
+RECONF_LAWS = ["Emit", "OneChangeAtATime", "AlwaysLegal", "Deterministic", "BackIsIdentity"]
 TIMES_LAWS = ["Emit", "ShapeTiles", "WithinSequence", "EndRequiredIffAsked", "DistinctTimes", "DefaultsOnlyWithoutOwn"]
 QUBIT_LAWS = ["Emit", "Physical", "FullTurn", "Additive", "OppositePhase", "PhaseIsFrame", "RabiFromPole",
               "DetuningKeepsPopulation"]
@@ -1051,9 +1205,13 @@ def run(tier):
         return p["w"] == 4 and (p["e"], p["m"]) in {("rgx", "ground-rydberg"), ("ghx", "digital"), ("udx", "XY")} \
             and (len(p["a"]) < 3 or _crc(p) % 3 == 0)
 
+    def init_ok(p):
+        return tuple(p["f"]) == (0, 0) and (p["e"], p["m"]) in {("rg", "ground-rydberg"), ("ud", "XY")} \
+            and len(p["a"]) <= 2 and p["w"] in (2, 4)
+
     bits_jobs = [("objects", bits_worker, lambda p: True, 16), ("prepared", emu_prep_worker, prep_ok, 4),
                  ("zero_drive", emu_zero_worker, zero_ok, 4), ("spam_eta1", emu_spam_worker, spam_ok, 4),
-                 ("leakage", emu_leak_worker, leak_ok, 2)]
+                 ("leakage", emu_leak_worker, leak_ok, 2), ("initial_state", emu_init_worker, init_ok, 2)]
     if quick:
         stage("bits-n12", "EmuBits", {"NSet": "{1, 2}", "Configs": CONFIGS, "Weights": "{1, 2, 4}",
                                       "Flips": "{<<0,0>>, <<4,0>>, <<0,4>>, <<4,4>>, <<1,2>>}",
@@ -1073,6 +1231,10 @@ def run(tier):
         stage("bits-n4", "EmuBits", {"NSet": "{4}", "Configs": CONFIGS, "Weights": "{4}",
                                      "Flips": "{<<0,0>>, <<4,0>>, <<0,4>>, <<2,1>>}", "MixFlips": "{}"},
               BITS_LAWS, bits_jobs)
+
+    # ---- a re-configured emulator = a fresh emulator with the configuration in force
+    stage("reconf", "EmuReconf", {"Bases": '{"gr", "dig", "all"}', "Depth": "1" if quick else "2", "MaxOn": "1"},
+          RECONF_LAWS, [("set_config", reconf_worker, lambda p: True, 2)])
 
     # ---- evaluation times, durations, idle periods: V2 = legacy
     dopts = "<< <<-1>>, <<12>>, <<6>>, <<0, 6, 12>>, <<4, 8>> >>"
@@ -1166,14 +1328,16 @@ def replay(path):
     coordinator wires harness.main.replay to it): 1 + VIOLATION line if the recorded clause fails again."""
     doc = json.load(open(path))
     pt, clause = doc["detail"]["point"], doc["signature"]["clause"]
-    if "ops" in pt:
+    if "h" in pt:
+        workers = [reconf_worker]
+    elif "ops" in pt:
         workers = [qubit_worker]
     elif "T" in pt:
         workers = [times_worker]
     elif "noise" in pt:
         workers = [stochastic_worker]
     else:
-        workers = [bits_worker, emu_prep_worker, emu_zero_worker, emu_spam_worker]
+        workers = [bits_worker, emu_prep_worker, emu_zero_worker, emu_spam_worker, emu_leak_worker, emu_init_worker]
         if doc["signature"].get("level") == "emulator":
             workers = workers[1:]
         else:
